@@ -544,25 +544,28 @@ def addConstraint (s : AS) (c : Core) (cs : List Con) (alloc : Nat) (blk : Optio
         | (some nb, s) => (s, c, cs ++ [newc], 2 * m', some nb, rSUCCESS)
       else (s, c, cs ++ [newc], alloc, blk, rSUCCESS)
 
+/-- the part of the public adders between the empty-constraint shortcut and the final munge call -/
+def addConCore (caps : List Nat) (eq : Bool) (s : AS) (c : Core) (fm : Nat) (isVec : Bool)
+    (fid pre fdata : Nat) (tol : Option (List F64)) : AS × Core × Int :=
+  if !caps.contains c.algorithm then
+    ((setErrmsg s c).1, (setErrmsg s c).2, rINVALID)
+  else if eq then
+    let r := addConstraint s c c.h c.pAlloc c.hBlk fm isVec fid pre fdata tol
+    (r.1, { r.2.1 with h := r.2.2.1, pAlloc := r.2.2.2.1, hBlk := r.2.2.2.2.1 }, r.2.2.2.2.2)
+  else
+    let r := addConstraint s c c.fc c.mAlloc c.fcBlk fm isVec fid pre fdata tol
+    (r.1, { r.2.1 with fc := r.2.2.1, mAlloc := r.2.2.2.1, fcBlk := r.2.2.2.2.1 }, r.2.2.2.2.2)
+
 /-- the four public adders share this shape -/
 def addCon (caps : List Nat) (eq : Bool) (s : AS) (c : Core) (fm : Nat) (isVec : Bool)
     (fid pre fdata : Nat) (tol : Option (List F64)) : AS × Core × Int :=
-  let (s, c) := unsetErrmsg s c
+  let u := unsetErrmsg s c
   if isVec ∧ fm = 0 then
     -- empty constraints are always ok
-    ((if c.mungeD then s.mungeDestroy fdata else s), c, rSUCCESS)
+    ((if u.2.mungeD then u.1.mungeDestroy fdata else u.1), u.2, rSUCCESS)
   else
-    let (s, c, ret) :=
-      if !caps.contains c.algorithm then
-        let (s, c) := setErrmsg s c
-        (s, c, rINVALID)
-      else if eq then
-        let (s, c, cs, al, blk, r) := addConstraint s c c.h c.pAlloc c.hBlk fm isVec fid pre fdata tol
-        (s, { c with h := cs, pAlloc := al, hBlk := blk }, r)
-      else
-        let (s, c, cs, al, blk, r) := addConstraint s c c.fc c.mAlloc c.fcBlk fm isVec fid pre fdata tol
-        (s, { c with fc := cs, mAlloc := al, fcBlk := blk }, r)
-    ((if ret < 0 ∧ c.mungeD then s.mungeDestroy fdata else s), c, ret)
+    let r := addConCore caps eq u.1 u.2 fm isVec fid pre fdata tol
+    ((if r.2.2 < 0 ∧ r.2.1.mungeD then r.1.mungeDestroy fdata else r.1), r.2.1, r.2.2)
 
 /-! ### scalar settings (the SET macro) -/
 
